@@ -17,20 +17,23 @@ Proof. exact emit_refs_closed. Qed.
 Theorem C08_sections : forall v u d, emit v u = Some d -> sections_ok (u_cfg u) d = true.
 Proof. exact emit_sections. Qed.
 
-(* a file is written only when gleece's own validators and the library validators accepted the
-   document that is written *)
-Theorem C08_written_only_if_valid : forall lib_ok v u d,
-  cmd lib_ok v u = Wrote d -> gleece_accepts u = true /\ emit v u = Some d /\ lib_ok d = true.
+(* a file is written only when gleece's own validators accepted, kin-openapi accepted the 3.0
+   document (built first whatever the configured version is) and, for 3.1, libopenapi accepted the
+   document that is written; lib30 / lib31 are oracles for the two libraries *)
+Theorem C08_written_only_if_valid : forall lib30 lib31 v u d,
+  cmd lib30 lib31 v u = Wrote d ->
+  gleece_accepts u = true /\ emit v u = Some d /\
+  (exists d30, emit V30 u = Some d30 /\ lib30 d30 = true) /\ (v = V31 -> lib31 d = true).
 Proof. exact cmd_wrote_inv. Qed.
 
-(* Full statement: forall lib_ok v u d, cmd lib_ok v u = Wrote d -> prop_C08 (u_cfg u) d = true
+(* Full statement: forall v u d, cmd lib30 lib31 v u = Wrote d -> prop_C08 (u_cfg u) d = true
    for the real library validators.  It is false (C08_wf_refuted: F6, C08_enum_refuted: F18).
    Proved for well-linked universes, whatever the library validators do: the path template of
    every documented route (controller prefix included) and its path parameters match one to one,
-   wire names are unique per location, no oneof/enum rule sits on a $ref usage, and the
-   declared enum values fit the enum's kind in the chosen dialect *)
-Theorem C08_wf_partial : forall lib_ok v u d,
-  well_linked v u -> cmd lib_ok v u = Wrote d -> prop_C08 (u_cfg u) d = true.
+   wire names are unique per location, and the declared enum values fit the enum's kind in the
+   chosen dialect *)
+Theorem C08_wf_partial : forall lib30 lib31 v u d,
+  well_linked v u -> cmd lib30 lib31 v u = Wrote d -> prop_C08 (u_cfg u) d = true.
 Proof. exact cmd_wf. Qed.
 
 Theorem C08_emit_wf_partial : forall v u d, well_linked v u -> emit v u = Some d -> wf d = true.
@@ -45,10 +48,11 @@ Proof. exact well_linked_b_sound. Qed.
    written document has a path parameter id that is not in the template and none for tenant *)
 Theorem C08_wf_refuted :
   gleece_accepts f6_u = true /\
-  exists d, cmd (lib_model_ok_v V30) V30 f6_u = Wrote d /\ wf d = false /\
+  exists d, cmd lib_model_ok (lib_model_ok_v V31) V30 f6_u = Wrote d /\ wf d = false /\
             failed_clauses (u_cfg f6_u) d = [2] /\
             map (fun o => (dop_path o, map op_name (dop_params o))) (doc_ops d) =
-              [(s "/users/{tenant}/plain", [s "id"])].
+              [(s "/users/{tenant}/plain", [s "id"])] /\
+            exists d', cmd lib_model_ok (lib_model_ok_v V31) V31 f6_u = Wrote d' /\ wf d' = false.
 Proof. exact f6_refuted. Qed.
 
 (* F18: the 3.0 document of a universe that is well-linked for 3.1 lists the values of an
@@ -59,15 +63,17 @@ Theorem C08_enum_refuted :
             option_map k_enum (lookup (doc_comps d) (s "Kind")) = Some (Some [EStr (s "1"); EStr (s "2"); EStr (s "10")]).
 Proof. exact f18_refuted. Qed.
 
-(* non-vacuity: the demo universe is well-linked and its document is written, a rejecting
-   library makes the command fail, and a universe outside the hypothesis (F9 tag) is still written *)
+(* non-vacuity: the demo universe is well-linked and its document is written; a rejecting
+   kin-openapi or libopenapi makes the 3.1 command fail; the 3.0 command does not ask libopenapi *)
 Example C08_nonvacuous :
-  cmd (lib_model_ok_v V31) V31 demo_u = Wrote demo_doc /\ cmd (fun _ => false) V31 demo_u = Failed /\
-  cmd (lib_model_ok_v V31) V31 (f9_u "oneof=red blue") <> Failed.
+  cmd lib_model_ok (lib_model_ok_v V31) V31 demo_u = Wrote demo_doc /\
+  cmd (fun _ => false) (lib_model_ok_v V31) V31 demo_u = Failed /\
+  cmd lib_model_ok (fun _ => false) V31 demo_u = Failed /\
+  cmd lib_model_ok (fun _ => false) V30 demo_u <> Failed.
 Proof. exact demo_cmd. Qed.
 
 Example C08_nonvacuous_hyps :
-  well_linked V31 demo_u /\ unique_type_names demo_u /\ universe_ok demo_u /\ quiet demo_u = true /\
+  well_linked V31 demo_u /\ unique_type_names demo_u /\ universe_ok demo_u /\
   ~ well_linked_b V30 demo_u = true.
 Proof. exact demo_hyps. Qed.
 
